@@ -333,7 +333,9 @@ DEFINE PRIO 1000000 <ID> + <INT> AS RUN __INC__ WITH $0, $1 END END DEFINE\n\
 DEFINE PRIO 1000000 <ID> - <INT> AS RUN __DEC__ WITH $0, $1 END END DEFINE\n\
   ";
 
-  files.insert(std::make_pair("__standards__", standard_macros));
+  // the hidden file always holds the standard macros: a supplied file that
+  // happens to carry its name must not take their place
+  files["__standards__"] = standard_macros;
   std::string incl_phrase = "include \"__standards__\"";
   if (files.contains(main))
     files[main].insert(files[main].begin(), incl_phrase.begin(),
